@@ -491,7 +491,8 @@ namespace adept {
 	// Perform line search, storing new state vector in x
 	ls_status = line_search(optimizable, x, direction,
 				test_x, step_size, gradient, state_up_to_date,
-				curvature_coeff, bound_step_size);
+				curvature_coeff,
+				std::max(bound_step_size, 0.0));
 	if (ls_status == MINIMIZER_STATUS_BOUND_REACHED) {
 	  bound_status(i_nearest_bound) = i_bound_type;
 	  // Restart the L-BFGS storage
